@@ -2203,7 +2203,7 @@ def gen_layout_programs(r, n):
         for j in range(r.randrange(1, 4)):
             key = G.key(r, hostile=0.5)
             d = G.data(r, r.pick([0, 1, 10, 300]))
-            algo = r.pick(L.ALGOS)
+            algo = r.pick(L.ALL_ALGOS if i % 3 == 0 else L.ALGOS)
             tm = r.pick([0, 5, 2**64, 123456789])
             md = G.jvalue(r)
             raw = r.pick([None, b"\x01\x02"])
@@ -2219,10 +2219,10 @@ def gen_layout_programs(r, n):
         key2 = recs[0][0]
         frames = b"".join(rec_frame(x) for x in recs)
         d2 = b"reference content " + bytes([i % 256])
-        algo2 = r.pick(L.ALGOS)
+        algo2 = "xxh3" if i % 7 == 3 else r.pick(L.ALGOS)      # (xxh3's directory name and digest length matter too)
         # an integrity may name several algorithms: the data lives at the address of the STRONGEST one
         integ2 = L.sri_of(algo2, d2)
-        weaker = L.ALGOS[:L.ALGOS.index(algo2)]
+        weaker = L.ALGOS[:L.ALGOS.index(algo2)] if algo2 != "xxh3" else []
         if weaker and r.chance(0.4):
             integ2 = integ2 + " " + L.sri_of(r.pick(weaker), d2)
         recs2 = recs + [(key2, integ2, r.pick([4242, 1, 0, 2**70]), len(d2),
